@@ -22,12 +22,12 @@ def register(reg, S):
     n = "len(self.events)"
 
     reg.add(Contract("chartparse.sync:BPMEvents.__len__", params=dict(self=BES), result=INT,
-                     ensures=[("len", f"result == {n}")], props=["C11"]))
+                     ensures=[("len", f"result == {n}")], props=["C01", "C11", "C12"]))
     reg.add(Contract(
         "chartparse.sync:BPMEvents.__getitem__", inst="int", params=dict(self=BES, index=INT), result=BE,
         raises={"IndexError": f"index >= {n} or index < -{n}"},
         ensures=[("item", f"result == self.events[index if index >= 0 else index + {n}]")],
-        props=["C11"]))
+        props=["C01", "C11", "C12"]))
     reg.add(Contract(
         "chartparse.sync:BPMEvents.__post_init__", params=dict(self=BES), result=NONE,
         raises={"ValueError": f"self.resolution <= 0 or {n} == 0 or self.events[0].tick != 0"},
@@ -47,7 +47,7 @@ def register(reg, S):
             ("bounds", f"start_iteration_index <= _it and _it <= {n} - 1"),
             ("below", "self.events[_it].tick <= tick"),
         ])},
-        props=["C11", "C15"]))
+        props=["C01", "C03", "C11", "C12", "C15", "C16"]))
     ts_pre = [("wf-sorted", "sorted_ticks(self)"), ("hint-nonneg", "start_iteration_index >= 0"),
               ("envelope", f"ENV(self) and -{2*BIG} <= tick <= {2*BIG}")]
     reg.add(Contract(
@@ -60,7 +60,7 @@ def register(reg, S):
             ("time-is-TS", "result[0] == TS(self, tick)"),
             ("index-range", f"0 <= result[1] < {n}"),
         ],
-        props=["C01", "C11", "C12", "C15"]))
+        props=["C01", "C03", "C11", "C12", "C15", "C16"]))
     reg.add(Contract(
         "chartparse.sync:BPMEvents.timestamp_at_tick_no_optimize_return",
         params=dict(self=BES, tick=INT), result=TD,
